@@ -199,7 +199,7 @@ fn run_rich(c: Config<RichDecorator>, html: &[u8], w: usize, route: &str) -> Out
 }
 
 /// As `run_one`, with the library's trace hook (cfg html2text_verif) recording one event per
-/// do_render_node call: returns the events as [kind, 17 scalars] arrays.
+/// do_render_node call: returns the events as [kind, 17 scalars of the renderer, 3 of the node's size estimate] arrays.
 pub fn run_one_steps(html: &[u8], w: usize, cfg: &Value, route: &str) -> (Outcome, Value, Value) {
     html2text::verif::start();
     let (o, ds) = run_one(html, w, cfg, route);
